@@ -18,6 +18,7 @@ EXPLANATION = (
     "agreement of the five input methods of `Stream` in every analysed feature configuration."
 )
 ASSUMPTIONS = ["struct invariant pos <= buf.len() of CharReader is maintained by consume()'s callers (consume is the one writer that relies on them)"]
+HANDLES_CONFIGS = True   # iterates ctx.configs() itself (enum Stream differs per feature configuration)
 
 
 def chain(e):
